@@ -123,6 +123,21 @@ Definition prim_message : ty := Eval vm_compute in (TEnum [ cs 0 "Prevote" prim_
           cs 2 "PrimaryPropose" prim_precommit ]).
 Definition localized_payload : ty := Eval vm_compute in (TStruct [ fd "Message" prim_message; fd "RoundNumber" u64; fd "SetID" u64 ]).
 
+(* finality-grandpa SignedMessage as instantiated by the primitives (SignedMessage[H, N]) *)
+Definition prim_signed_message : ty := Eval vm_compute in (TStruct [ fd "Message" prim_message; fd "Signature" sig64; fd "ID" h256 ]).
+
+(* Substrate's generic::Header as internal/primitives/runtime/generic.Header holds it (the wire
+   type is [header]; the names are those of internal/primitives/runtime's digest items) and
+   sp_consensus_grandpa::GrandpaJustification { round, commit, votes_ancestries: Vec<Header> } *)
+Definition prim_engine_payload : ty := Eval vm_compute in (TStruct [fd "ConsensusEngineID" (TFixed 4); fd "Bytes" TBytes]).
+Definition prim_digest_item : ty := Eval vm_compute in (TEnum [ cs 0 "Other" TBytes;
+          cs 4 "Consensus" prim_engine_payload;
+          cs 5 "Seal" prim_engine_payload;
+          cs 6 "PreRuntime" prim_engine_payload;
+          cs 8 "RuntimeEnvironmentUpdated" (TStruct []) ]).
+Definition prim_header : ty := Eval vm_compute in (header_of prim_digest_item).
+Definition prim_justification : ty := Eval vm_compute in (TStruct [ fd "Round" u64; fd "Commit" prim_commit; fd "VoteAncestries" (TVec prim_header) ]).
+
 Definition registry : list (name * ty) := Eval vm_compute in ([ fd "Header" header; fd "Digest" digest; fd "Body" body;
     fd "BabeDigest" babe_pre_digest;
     fd "BabeConsensusDigest" babe_consensus_digest;
@@ -136,7 +151,11 @@ Definition registry : list (name * ty) := Eval vm_compute in ([ fd "Header" head
     fd "AuthorityList" authority_list;
     fd "PrimScheduledChange" prim_scheduled_change;
     fd "PrimCommit" prim_commit;
-    fd "LocalizedPayload" localized_payload ]).
+    fd "LocalizedPayload" localized_payload;
+    fd "PrimMessage" prim_message;
+    fd "PrimSignedMessage" prim_signed_message;
+    fd "PrimHeader" prim_header;
+    fd "PrimJustification" prim_justification ]).
 
 Fixpoint find_type (n : name) (r : list (name * ty)) : option ty :=
   match r with
